@@ -9,6 +9,11 @@ Decided:
                   acquire_with_mode on that file; FileLock::unlock (fs2) is called only from Drop / the mode changes
                   of FileLock itself; Memvid::downgrade_to_shared reaches the lock downgrade only on the
                   !dirty && !tantivy-pending edge; ensure_writable upgrades before clearing read_only.
+  TYPESTATE-C17c  FileLock.mode never claims more than the OS lock held: inside FileLock every store of Exclusive or
+                  Shared into `mode` is dominated by the success edge of the locking call (lock_with_retry /
+                  try_lock_*). upgrade_to_exclusive returns early when mode is already Exclusive and ensure_writable
+                  trusts it, so a mode stored before a lock attempt that then fails turns the next write into an
+                  unlocked writer.
 Not decided: interleavings of two processes."""
 from . import lib
 from .facts import Place, op_place
@@ -144,7 +149,40 @@ def lock_typestate(ctx, F, fn, renames):
                 ctx.lost('TYPESTATE-C17a', '%s: mode of the staged lock not recognised' % fn.key)
 
 
+LOCKERS = ('FileLock::lock_with_retry', 'FileExt::try_lock_exclusive', 'FileExt::try_lock_shared', 'FileExt::lock_exclusive', 'FileExt::lock_shared')
+
+
+def _mode_claims(ctx, F):
+    ctx.rule('TYPESTATE-C17c', 'inside FileLock, mode = Exclusive/Shared is stored only after the locking call succeeded')
+    n = 0
+    for f in sorted(F.fns.values(), key=lambda x: x.path):
+        if not (f.r.get('impl_self') or '').endswith('::FileLock') or f.is_closure or f.r.get('derive'):
+            continue
+        lockers = [c for c in f.calls() if c.is_(LOCKERS) or c.name in ('try_lock_exclusive', 'try_lock_shared', 'lock_exclusive', 'lock_shared')]
+        for st in lib.field_stores(f, 'FileLock', 'mode'):
+            if st['lhs'].field_owners()[-1] != ('FileLock', 'mode'):
+                continue
+            sl = lib.slice_back(f, lib.rv_operands(st['rv']), through_calls=False, at=(st['bb'], st['idx']))
+            modes = {a.split('::')[-1] for a in sl.aggs if a.startswith('LockMode::')}
+            for k in sl.consts:
+                if 'promoted' in k:
+                    modes |= {a.split('::')[-1] for a in lib.promoted_summary(f, k['promoted'])['aggs'] if a.startswith('LockMode::')}
+            if not modes & {'Exclusive', 'Shared'} and modes:
+                continue
+            n += 1
+            ctx.evaluations += 1
+            ctx.touch(f, 1)
+            if any(lib.call_success_dominates(f, c, st['bb']) for c in lockers):
+                ctx.ok('TYPESTATE-C17c', f, 'mode = %s stored after the locking call succeeded' % ('/'.join(sorted(modes)) or 'parameter'), line=st['line'])
+            else:
+                ctx.bad('TYPESTATE-C17c', f, 'FileLock.mode is set to %s before (or without) a successful locking call: if the lock attempt fails the guard still claims the lock, and '
+                        'upgrade_to_exclusive / ensure_writable will treat the handle as writable without holding any OS lock' % ('/'.join(sorted(modes)) or 'a lock mode'),
+                        line=st['line'], sink='FileLock.mode', detail='mode-claimed-before-lock')
+    ctx.floor('TYPESTATE-C17c', n, 2, 'stores of a lock mode inside FileLock')
+
+
 def run(ctx):
+    _mode_claims(ctx, ctx.facts())
     ctx.rule('TYPESTATE-C17a', 'after the memory file is replaced by rename, Memvid.lock is re-assigned to a lock on the new inode before Ok')
     ctx.rule('WMC-C17b', 'constructors pair file+lock; unlock only in Drop/mode changes; downgrade only when clean; upgrade before writable')
     F = ctx.facts()
